@@ -743,9 +743,15 @@ def related_dicts(rng, k):
 def rand_v2(rng):
     src, dst = rng.choice([("bank_codes", "bank_code"), ("codes", "bic"), ("xs", "name")])
     entries = []
+    used = ["0001"]
     for _ in range(rng.randrange(0, 5)):
+        codes = []
+        for _k in range(rng.randrange(0, 4)):
+            # now and then a code that occurs already (in another entry, or twice in one list)
+            codes.append(rng.choice(used) if rng.random() < 0.3 else str(rng.randrange(10000)).zfill(4))
+            used.append(codes[-1])
         en = {"country_code": rng.choice(["DK", "DE"]), "bic": rng.choice(["", "NDEADKKK", None]),
-              "name": rng.choice(["N", "ÆØ bank"]), src: [str(rng.randrange(10000)).zfill(4) for _ in range(rng.randrange(0, 4))]}
+              "name": rng.choice(["N", "ÆØ bank"]), src: codes}
         if rng.random() < 0.4:
             en["primary"] = rng.choice([True, False])
         if rng.random() < 0.3:
@@ -918,6 +924,13 @@ def c12_streams(ctx):
         for c2 in (cc, "XX", "", cc.lower()):
             yield Case("corr", "candidates", [enc(c2), enc(mut)], "unlisted", True)
             yield Case("corr", "from_bank_code", [enc(c2), enc(mut)], "unlisted", True)
+    # codes that differ from a listed one only by leading zeros (stripped, or one more) and are not listed themselves
+    listed = set(keys)
+    zeroish = [(cc, code) for cc, code in keys if code.startswith("0") and code.strip("0")]
+    for cc, code in rng.sample(zeroish, min(len(zeroish), 40 if ctx.quick else 600)):
+        for mut in (code.lstrip("0"), code[1:], "0" + code):
+            if mut and (cc, mut) not in listed:
+                yield Case("prop", "spec_unlisted_pair", [enc(cc), enc(mut)], "unlisted-zeros", True)
     bs = bics if not ctx.quick else rng.sample(bics, 300)
     for b in bs + ["GENODEM1XXX", "", "AAAADEFFXXX"]:
         yield Case("prop", "bic_domestic", [enc(b)], "reverse", True)
